@@ -1588,6 +1588,257 @@ def weyl_search(ctx):
         ctx.ob(obn, not hit, "search", "" if not hit else "failing inputs found: " + ", ".join(hit[:6]))
 
 
+# ---------------------------------------------------------------------------
+# (3c) input representations: the same mathematical matrix passed as float64 / int64 / complex64 arrays and nested lists
+
+
+def _obj_code(tag, data):
+    if tag in ("list", "clist"):
+        return repr(data)
+    return f"np.array({data!r}, dtype=np.{tag})"
+
+
+def dtype_variants(M):
+    """(tag, object handed to qibo, python expression rebuilding it, mathematical matrix as complex128) for every
+    representation of M that is exact or an explicit down-cast: complex128 is what every other suite feeds."""
+    M = np.asarray(M)
+    out = []
+    if np.allclose(M.imag, 0, atol=0) if np.iscomplexobj(M) else True:
+        R = np.asarray(M.real, dtype=np.float64)
+        out.append(("float64", R.copy(), R.tolist()))
+        out.append(("list", R.tolist(), R.tolist()))
+        if np.array_equal(R, np.round(R)):
+            I = R.astype(np.int64)
+            out.append(("int64", I.copy(), I.tolist()))
+            out.append(("list", I.tolist(), I.tolist()))
+    C = np.asarray(M, dtype=np.complex64)
+    out.append(("complex64", C.copy(), [[complex(x) for x in r] for r in C.tolist()]))
+    Z = np.asarray(M, dtype=np.complex128)
+    out.append(("clist", [[complex(x) for x in r] for r in Z.tolist()], [[complex(x) for x in r] for r in Z.tolist()]))
+    return [(tag, obj, _obj_code(tag, data), np.array(obj, dtype=np.complex128)) for tag, obj, data in out]
+
+
+def real_corpus_1q(rng, thorough):
+    """real 2x2 orthogonal matrices of every sign pattern of (U00, U10, det): rotations and reflections by angles in all
+    four quadrants and on the axes, signed permutation matrices; plus a few complex ones for the complex64 / list forms."""
+    rot = lambda a: np.array([[math.cos(a), -math.sin(a)], [math.sin(a), math.cos(a)]])
+    refl = lambda a: np.array([[math.cos(a), math.sin(a)], [math.sin(a), -math.cos(a)]])
+    out = {}
+    angles = [0.4, -0.4, 1.3, -1.3, 2.5, -2.5, 0.05, -3.0, math.pi / 4, -math.pi / 4, 3 * math.pi / 4, -3 * math.pi / 4]
+    angles += [rng.uniform(-math.pi, math.pi) for _ in range(8 if thorough else 3)]
+    for a in angles:
+        out[f"rot({a:+.3f})"] = rot(a)
+        out[f"refl({a:+.3f})"] = refl(a)
+    for s0 in (1, -1):
+        for s1 in (1, -1):
+            out[f"diag({s0},{s1})"] = np.array([[s0, 0], [0, s1]], dtype=float)
+            out[f"anti({s0},{s1})"] = np.array([[0, s0], [s1, 0]], dtype=float)
+    h = np.array([[1.0, 1.0], [1.0, -1.0]]) / math.sqrt(2)
+    out.update({"H": h, "-H": -h, "HX": h @ np.array([[0.0, 1.0], [1.0, 0.0]]), "XH": np.array([[0.0, 1.0], [1.0, 0.0]]) @ h})
+    for i in range(6 if thorough else 3):
+        out[f"haar{i}"] = haar(rng, 2)
+    out["S"] = np.diag([1, 1j])
+    out["Y"] = np.array([[0, -1j], [1j, 0]])
+    return out
+
+
+def real_corpus_2q(rng, thorough):
+    """real orthogonal 4x4 (Haar on O(4), both determinants, products of local rotations with CNOT/SWAP), signed
+    permutation matrices; a few complex ones for the complex64 / list forms."""
+    out = {}
+    r = np.random.default_rng(rng.getrandbits(32))
+    for i in range(6 if thorough else 3):
+        q, t = np.linalg.qr(r.normal(size=(4, 4)))
+        q = q * np.sign(np.diag(t))
+        out[f"O4_{i}"] = q
+        q2 = q.copy()
+        q2[:, 0] *= -1
+        out[f"O4m_{i}"] = q2
+    rot = lambda a: np.array([[math.cos(a), -math.sin(a)], [math.sin(a), math.cos(a)]])
+    CN = np.array([[1, 0, 0, 0], [0, 1, 0, 0], [0, 0, 0, 1], [0, 0, 1, 0]], dtype=float)
+    SW = np.array([[1, 0, 0, 0], [0, 0, 1, 0], [0, 1, 0, 0], [0, 0, 0, 1]], dtype=float)
+    out["rot_CNOT_rot"] = np.kron(rot(-0.4), rot(2.5)) @ CN @ np.kron(rot(1.1), rot(-2.0))
+    out["rot_SWAP"] = np.kron(rot(-0.7), rot(0.3)) @ SW
+    out["rotxrot"] = np.kron(rot(-0.4), rot(2.5))
+    perms = list(itertools.permutations(range(4)))
+    for p_ in (perms if thorough else rng.sample(perms, 5)):
+        sg = [rng.choice((1, -1)) for _ in range(4)]
+        P = np.zeros((4, 4))
+        for i, j in enumerate(p_):
+            P[i, j] = sg[i]
+        out["sperm" + "".join(map(str, p_)) + "".join("+" if x > 0 else "-" for x in sg)] = P
+    out["CNOT"], out["SWAP"], out["CZ"] = CN, SW, np.diag([1.0, 1.0, 1.0, -1.0])
+    for i in range(3 if thorough else 2):
+        out[f"haar{i}"] = haar(rng, 4)
+    return out
+
+
+def _peq(a, b, tol):
+    """a = c * b for a complex c of modulus 1 up to tol (a down-cast input is unitary only to single precision, so the
+    modulus of the best scalar is allowed to deviate by tol as well)."""
+    a, b = np.asarray(a), np.asarray(b)
+    if a.shape != b.shape:
+        return False
+    c = np.vdot(b, a)
+    if abs(c) < 1e-12:
+        return False
+    c = c / abs(c)
+    return bool(np.allclose(a, c * b, atol=tol))
+
+
+def dtype_search(ctx):
+    """arbitrary one- and two-qubit unitary matrices are translatable whatever the REPRESENTATION the caller uses
+    (float64 / int64 / complex64 arrays, nested python lists where the constructor accepts them): u3_decomposition,
+    two_qubit_decomposition, translate_gate and Unroller under the native sets; every result is compared, as an operator up
+    to a global phase, with the MATHEMATICAL matrix (the data converted to complex128 by the harness), and the ZYZ angle
+    formulas of the Lean model are compared with the real function on the same representations."""
+    import cmath
+
+    from qibo import Circuit
+    from qibo.transpiler import unitary_decompositions as UD
+
+    gates, D, U = modules()
+    nb = qgates.np_backend()
+    rng = ctx.rng
+    sets = native_sets()
+    sets2 = [s for s in sets if s[3] != ("CNOT",)]
+    before = len(ctx.failures)
+    OBO, OBT, OBZ = "C10_search_dtype_operator", "C10_search_dtype_translatable", "C10_corr_zyz_dtype"
+    bad_z, first_z = 0, None
+
+    def fresh(obj):
+        return [list(r) for r in obj] if isinstance(obj, list) else obj.copy()
+
+    # ---- one qubit
+    for label, M in sorted(real_corpus_1q(rng, ctx.thorough).items()):
+        for tag, obj, oc, Mm in dtype_variants(M):
+            tol = 1e-5 if tag == "complex64" else 1e-7
+            ctx.case(("dtype1q", label, tag))
+            ctx.stat(f"dtype1q_{tag}")
+            pre = REPLAY_PRE + f"from qibo.transpiler.unitary_decompositions import u3_decomposition\nM = {oc}\nMm = np.array(M, dtype=complex)\n"
+            # (a) the angle function itself
+            try:
+                real = UD.u3_decomposition(fresh(obj), nb)
+                okm = _peq(u3_model(*real), Mm, tol)
+                err = None
+            except Exception as e:
+                real, okm, err = None, False, e
+            if not okm:
+                ctx.fail(f"zyz:dtype:{tag}" if err is None else f"zyz:dtype:{tag}:raises", f"u3_decomposition of '{label}' passed as {tag} "
+                         + (f"raises {type(err).__name__}: {err}" if err else f"returns {real}: U3 at these angles is not the matrix up to a phase"),
+                         pre + "t, p, l = u3_decomposition(M, nb)\nassert phase_equal(gates.U3(0, t, p, l).matrix(nb), Mm, 1e-5)\n",
+                         observed=str(err or real), broken=[OBT if err else OBO])
+            else:
+                # tie with the Lean model's formulas (u3Angles) evaluated on the mathematical matrix
+                det = complex(np.linalg.det(Mm))
+                su = Mm / cmath.exp(cmath.log(det) / 2)
+                model = (2 * cmath.phase(complex(abs(su[0, 0]), abs(su[1, 0]))),
+                         cmath.phase(su[1, 1]) + cmath.phase(su[1, 0]), cmath.phase(su[1, 1]) - cmath.phase(su[1, 0]))
+                if not all(abs(a - b) < 1e-9 for a, b in zip(real, model)):
+                    # on a branch cut of sqrt / arg (det = -1, entries on the negative real axis) only the matrices agree
+                    if np.allclose(u3_model(*real), u3_model(*model), atol=1e-9) or np.allclose(u3_model(*real), -u3_model(*model), atol=1e-9):
+                        ctx.stat("zyz_dtype_branch_cut")
+                    else:
+                        bad_z += 1
+                        first_z = first_z or f"{label} as {tag}: real {real} / model {model}"
+            # (b) through gates.Unitary, translate_gate and the Unroller
+            q = rng.choice([0, 1, 2])
+            try:
+                gates.Unitary(fresh(obj), q)
+            except Exception:
+                ctx.stat(f"dtype_ctor_reject_{tag}")
+                continue
+            n = q + 1
+            ref = apply_local(np.eye(2**n, dtype=complex), Mm, [q], n)
+            for sname, ns, s1, s2 in (sets if ctx.thorough else [s for s in sets if s[3] == ("CZ",)] + rng.sample(sets, 1)):
+                ctx.case(("dtype1q_tr", label, tag, sname))
+                py = pre + f"ns = natives({flag_names(ns)})\nout = translate_gate(gates.Unitary(M, {q}), ns)\nout = out if isinstance(out, list) else [out]\n" \
+                    f"assert only_native(out, ns) and phase_equal(full(out, {n}), full([gates.Unitary(Mm, {q})], {n}), 1e-5)\n"
+                try:
+                    out = as_list(U.translate_gate(gates.Unitary(fresh(obj), q), ns))
+                    bad = None if only_native(out, ns) else "non-native gates"
+                    if bad is None and not _peq(full_of(out, n), ref, tol):
+                        bad = "wrong operator"
+                except Exception as e:
+                    bad = f"raises {type(e).__name__}: {e}"
+                if bad:
+                    ctx.fail(f"dtype:{tag}:1q:{sname}", f"translate_gate(Unitary('{label}' passed as {tag}, {q}), {flag_names(ns)}): {bad}", py,
+                             observed=bad, broken=[OBT if bad.startswith("raises") else OBO])
+            sname, ns, s1, s2 = rng.choice(sets)
+            ctx.stat("dtype_unroller")
+            try:
+                c = Circuit(n)
+                c.add(gates.H(q))
+                c.add(gates.Unitary(fresh(obj), q))
+                c.add(gates.RZ(q, 0.3))
+                want = full_of([gates.RZ(q, 0.3)], n) @ ref @ full_of([gates.H(q)], n)
+                u = U.Unroller(ns)(c)
+                bad = None if only_native(u.queue, ns) else "non-native gates"
+                if bad is None and not _peq(full_of(list(u.queue), n), want, tol):
+                    bad = "wrong operator"
+            except Exception as e:
+                bad = f"raises {type(e).__name__}: {e}"
+            if bad:
+                ctx.fail(f"dtype:{tag}:unroller:{sname}", f"Unroller({sname}) on H, Unitary('{label}' passed as {tag}), RZ: {bad}",
+                         pre + f"ns = natives({flag_names(ns)})\nc = Circuit({n})\nc.add(gates.H({q}))\nc.add(gates.Unitary(M, {q}))\nc.add(gates.RZ({q}, 0.3))\n"
+                         f"u = Unroller(ns)(c)\nw = Circuit({n})\nw.add(gates.H({q}))\nw.add(gates.Unitary(Mm, {q}))\nw.add(gates.RZ({q}, 0.3))\n"
+                         f"assert only_native(u.queue, ns) and phase_equal(full(u.queue, {n}), full(w.queue, {n}), 1e-5)\n",
+                         observed=bad, broken=[OBT if bad.startswith("raises") else OBO])
+    ctx.ob(OBZ, bad_z == 0, "correspondence",
+           f"{bad_z} representations on which the real u3_decomposition and the transliterated formulas differ, first: {first_z}" if bad_z else "")
+    # ---- two qubits
+    for label, M in sorted(real_corpus_2q(rng, ctx.thorough).items()):
+        for tag, obj, oc, Mm in dtype_variants(M):
+            tol = 2e-5 if tag == "complex64" else 1e-6
+            q = rng.choice([(0, 1), (1, 0), (2, 0), (1, 2)])
+            n = max(q) + 1
+            ctx.case(("dtype2q", label, tag))
+            ctx.stat(f"dtype2q_{tag}")
+            ref = apply_local(np.eye(2**n, dtype=complex), Mm, list(q), n)
+            pre = REPLAY_PRE + f"from qibo.transpiler.unitary_decompositions import two_qubit_decomposition\nM = {oc}\nMm = np.array(M, dtype=complex)\n"
+            try:
+                gl = UD.two_qubit_decomposition(q[0], q[1], fresh(obj), backend=nb)
+                bad = None if _peq(full_of(gl, n), ref, tol) else "wrong operator"
+            except Exception as e:
+                if is_magic_basis_refusal(e):
+                    ctx.stat("dtype_known_refusal")
+                    ctx.fail(KAK_KNOWN_KEY, f"two_qubit_decomposition of '{label}' passed as {tag} raises {type(e).__name__}: {e}",
+                             pre + f"two_qubit_decomposition({q[0]}, {q[1]}, M, backend=nb)\n", observed=str(e), broken=[OBT])
+                    continue
+                bad = f"raises {type(e).__name__}: {e}"
+            if bad:
+                ctx.fail(f"dtype:{tag}:kak", f"two_qubit_decomposition of '{label}' passed as {tag} on qubits {q}: {bad}",
+                         pre + f"gl = two_qubit_decomposition({q[0]}, {q[1]}, M, backend=nb)\n"
+                         f"assert phase_equal(full(gl, {n}), full([gates.Unitary(Mm, *{list(q)})], {n}), 2e-5)\n",
+                         observed=bad, broken=[OBT if bad.startswith("raises") else OBO])
+                continue
+            try:
+                gates.Unitary(fresh(obj), *q)
+            except Exception:
+                ctx.stat(f"dtype_ctor_reject_{tag}")
+                continue
+            for sname, ns, s1, s2 in (sets2 if ctx.thorough else rng.sample(sets2, 2)):
+                ctx.case(("dtype2q_tr", label, tag, sname))
+                try:
+                    out = as_list(U.translate_gate(gates.Unitary(fresh(obj), *q), ns))
+                    bad = None if only_native(out, ns) else "non-native gates"
+                    if bad is None and not _peq(full_of(out, n), ref, tol):
+                        bad = "wrong operator"
+                except Exception as e:
+                    if is_magic_basis_refusal(e):
+                        continue
+                    bad = f"raises {type(e).__name__}: {e}"
+                if bad:
+                    ctx.fail(f"dtype:{tag}:2q:{sname}", f"translate_gate(Unitary('{label}' passed as {tag}, {q}), {flag_names(ns)}): {bad}",
+                             pre + f"ns = natives({flag_names(ns)})\nout = translate_gate(gates.Unitary(M, *{list(q)}), ns)\n"
+                             f"assert only_native(out, ns) and phase_equal(full(out, {n}), full([gates.Unitary(Mm, *{list(q)})], {n}), 2e-5)\n",
+                             observed=bad, broken=[OBT if bad.startswith("raises") else OBO])
+    new = ctx.failures[before:]
+    for obn in (OBT, OBO):
+        hit = [f["key"] for f in new if obn in f["broken"]]
+        ctx.ob(obn, not hit, "search", "" if not hit else "failing inputs found: " + ", ".join(hit[:6]))
+
+
 def circuit_check(ctx, n, recipe, sname, ns, broken=None):
     """property check of one Unroller call; returns the failure key or None."""
     from qibo import Circuit
@@ -2237,6 +2488,7 @@ def run(ctx):
     unitary_search(ctx)
     weyl_search(ctx)
     kak_certificate(ctx)
+    dtype_search(ctx)
     circuit_search(ctx)
     lap("unitary_circuit_search")
     history_search(ctx)
